@@ -236,7 +236,11 @@ def evaluate(arg):
                 avail = len(full)
                 rows = []
                 for n_req in sorted({0, 1, max(avail - 1, 0), avail, avail + 3}):
-                    got = runner.synth(block, n_req, strat)
+                    try:
+                        got = runner.synth(block, n_req, strat)
+                    except Exception as e:        # the exhausting call above succeeded: a failure for one requested count is this row's finding
+                        rows.append(dict(requested=n_req, raised=[type(e).__name__, str(e)[:200]]))
+                        continue
                     keys = [key_of_exp(e, names) for e in got]
                     rows.append(dict(requested=n_req, returned=len(got), keys=keys if len(keys) <= 400 else None, distinct=len(set(keys))))
                 rec[strat] = dict(available=avail, rows=rows, full_keys=[key_of_exp(e, names) for e in full] if avail <= 3000 else None)
